@@ -486,6 +486,64 @@ class Case:
                 break
         return evs, out
 
+    def run_closed(self, spec):
+        """the closed crash-free system of coq/Model/PoolSys.v: the harness keeps the task queue,
+        the pipe, the workers' protocol state and the result pipe; the REAL parent-side code is
+        the parent.  A random enabled step at a time, until nothing is enabled (or `stop_after`
+        steps).  Returns (schedule, parent events, observations, maximal)."""
+        import random
+        rng = random.Random(spec['seed'])
+        p = self.pool
+        todo = spec['n']
+        taskq, inq, outq = [], [], []
+        wk = [None] * len(p._pool)
+        sched, evs, out = [], [], []
+        limit = spec.get('stop_after')
+        maximal = False
+        while True:
+            en = []
+            if todo > 0 and p._state == bp.RUN and not (p.putlocks and p._putlock is not None and p._putlock._value == 0):
+                en.append(['submit'])
+            if taskq:
+                en.append(['put'])
+            for i, w in enumerate(wk):
+                if w is None and inq:
+                    en.append(['take', i])
+                if w is not None:
+                    en.append(['finish', i])
+            if outq:
+                en.append(['recv'])
+            if not en:
+                maximal = True
+                break
+            if limit is not None and len(sched) >= limit:
+                break
+            st = rng.choice(en)
+            sched.append(st)
+            ev = None
+            if st[0] == 'submit':
+                todo -= 1
+                taskq.append(len(self.jobs))
+                ev = ['apply', None, None, None, None]
+            elif st[0] == 'put':
+                inq.append(taskq.pop(0))
+            elif st[0] == 'take':
+                j = inq.pop(0)
+                wk[st[1]] = j
+                outq.append(['ack', j, None, p._pool[st[1]].ref])
+            elif st[0] == 'finish':
+                j = wk[st[1]]
+                wk[st[1]] = None
+                outq.append(['ready', j, None, True, j])
+            else:
+                ev = outq.pop(0)
+            if ev is not None:
+                evs.append(ev)
+                out.extend(self.run([ev]))
+                if out[-1]['exc'] == 'Hang':
+                    break
+        return sched, evs, out, maximal
+
     def run(self, events):
         out = []
         events = list(events)
@@ -545,7 +603,10 @@ def main():
     res = []
     for c in cases:
         case = Case(c['cfg'])
-        if 'gen' in c:
+        if 'closed' in c:
+            sched, evs, obs, maximal = case.run_closed(c['closed'])
+            res.append(dict(events=evs, obs=obs, sched=sched, maximal=maximal))
+        elif 'gen' in c:
             evs, obs = case.run_gen(c['gen'])
             res.append(dict(events=evs, obs=obs))
         else:
